@@ -82,21 +82,25 @@ ReleaseAll(lg, i, qq) == IF qq = <<>> THEN lg
                          ELSE ReleaseAll(Append(lg, <<"ev", i, Head(qq)[1], Head(qq)[2], Head(qq)[3]>>), i, Tail(qq))
 Enable(s, i) == [s EXCEPT !.en[i] = TRUE, !.log = ReleaseAll(@, i, s.q[i]), !.q[i] = <<>>]
 
-\* desper.switch(h, cc, cn) called by code of the running instance w: returns the state when SwitchWorld is raised
-SwitchFn(s, w, h, cc, cn, selfSwitch) ==
-    LET pre == IF SwitchClearsBeforeLoad /\ (cn \/ (cc /\ selfSwitch)) THEN ClearH(s, h) ELSE s
+\* desper.switch(h, cc, cn) called by code of the running instance w.  Returns <<state when SwitchWorld is raised,
+\* clear_current and clear_next as carried by the exception>>.  A switch is a self-switch when the target handle
+\* currently caches the very instance that is running.
+SwitchFn(s, w, h, cc, cn) ==
+    LET self == s.inst[h] # 0 /\ s.inst[h] = w
+        early == SwitchClearsBeforeLoad /\ (cn \/ (cc /\ self))
+        pre == IF early THEN ClearH(s, h) ELSE s
         c == Call(pre, h)
         to == c[2]
         s1 == Dispatch(c[1], w, "on_switch_out", w, to)
         s2 == [s1 EXCEPT !.en[w] = FALSE, !.en[to] = FALSE]
-    IN Dispatch(s2, to, "on_switch_in", w, to)
+    IN <<Dispatch(s2, to, "on_switch_in", w, to),
+         IF early /\ self THEN FALSE ELSE cc,
+         IF early THEN FALSE ELSE cn>>
 
-\* Loop.switch + SimpleLoop.switch executed by the loop when it catches SwitchWorld(h, cc, cn).
-\* viaFn: the request came through switch() (intended semantics: the clears were already applied there)
-LoopSwitch(s, curH, h, cc, cn, viaFn) ==
-    LET done == viaFn /\ SwitchClearsBeforeLoad
-        s1 == IF cc /\ curH # "none" /\ ~(done /\ curH = h) THEN ClearH(s, curH) ELSE s
-        s2 == IF cn /\ ~done THEN ClearH(s1, h) ELSE s1
+\* Loop.switch + SimpleLoop.switch executed by the loop when it catches SwitchWorld(h, cc, cn)
+LoopSwitch(s, curH, h, cc, cn) ==
+    LET s1 == IF cc /\ curH # "none" THEN ClearH(s, curH) ELSE s
+        s2 == IF cn THEN ClearH(s1, h) ELSE s1
         c == Call(s2, h)
     IN <<Enable(c[1], c[2]), c[2]>>
 
@@ -114,7 +118,7 @@ RunSites(s, w, from, upto, dt) ==
 \* the program makes handle h the loop's world before starting (loop.switch(h) from outside)
 InitialSwitch(h) ==
     /\ ~running /\ nextInst <= MaxInst
-    /\ LET r == LoopSwitch(S0, cur, h, FALSE, FALSE, FALSE) IN
+    /\ LET r == LoopSwitch(S0, cur, h, FALSE, FALSE) IN
        /\ Commit(r[1]) /\ cur' = h /\ curInst' = r[2]
     /\ ret' = "ok" /\ UNCHANGED <<running, started, last, now, frames, coUsed>>
 
@@ -146,12 +150,12 @@ Frame(inc, site, req) ==
                     /\ Commit(RunSites(Dispatch(s1, inst[req[2]], "poke", 0, 0), w, k + 1, 4, dt))
                     /\ last' = reading /\ ret' = "ok" /\ UNCHANGED <<cur, curInst, running>>
                [] req[1] = "switch" ->
-                    LET s2 == SwitchFn(s1, w, req[2], req[3], req[4], req[2] = cur)
-                        r == LoopSwitch(s2, cur, req[2], req[3], req[4], TRUE) IN
+                    LET f == SwitchFn(s1, w, req[2], req[3], req[4])
+                        r == LoopSwitch(f[1], cur, req[2], f[2], f[3]) IN
                     /\ Commit(r[1]) /\ cur' = req[2] /\ curInst' = r[2]
                     /\ last' = reading /\ ret' = "switched" /\ UNCHANGED running
                [] req[1] = "raise" ->
-                    LET r == LoopSwitch(s1, cur, req[2], req[3], req[4], FALSE) IN
+                    LET r == LoopSwitch(s1, cur, req[2], req[3], req[4]) IN
                     /\ Commit(r[1]) /\ cur' = req[2] /\ curInst' = r[2]
                     /\ last' = reading /\ ret' = "switched" /\ UNCHANGED running
                [] req[1] = "quit" ->
@@ -159,6 +163,12 @@ Frame(inc, site, req) ==
                     /\ UNCHANGED <<cur, curInst>>
                [] req[1] = "quit_loop" ->
                     /\ Commit(Dispatch(s1, w, "on_quit", 0, 0)) /\ running' = FALSE /\ last' = NoTS /\ ret' = "returned"
+                    /\ UNCHANGED <<cur, curInst>>
+               [] req[1] = "clrquit" ->
+                    \* the running code drops the cache of the current handle, then calls quit_loop(): on_quit still
+                    \* goes to the world that is running, which stays the loop's current world
+                    /\ Commit(Dispatch(IF cur # "none" THEN ClearH(s1, cur) ELSE s1, w, "on_quit", 0, 0))
+                    /\ running' = FALSE /\ last' = NoTS /\ ret' = "returned"
                     /\ UNCHANGED <<cur, curInst>>
                [] req[1] = "error" ->
                     \* any other exception propagates out of start(); `running` is left as it is (not specified)
@@ -168,6 +178,7 @@ Frame(inc, site, req) ==
     /\ UNCHANGED started
 
 ReqSet == {<<"nop", "-", FALSE, FALSE>>, <<"quit", "-", FALSE, FALSE>>, <<"quit_loop", "-", FALSE, FALSE>>,
+           <<"clrquit", "-", FALSE, FALSE>>,
            <<"error", "-", FALSE, FALSE>>}
           \cup {<<"poke", h, FALSE, FALSE>> : h \in Hs}
           \cup {<<k, h, cc, cn>> : k \in {"switch", "raise"}, h \in Hs, cc \in BOOLEAN, cn \in BOOLEAN}
@@ -209,4 +220,6 @@ InOnceInEntered == [][(IsFrame /\ ret' = "switched" /\ Len(Evs(log', "on_switch_
 LeftWorldMuted == [][(IsFrame /\ ret' = "switched" /\ Len(Evs(log', "on_switch_out")) > 0 /\ curInst' # curInst) => ~en'[curInst]]_vars
 CurrentEnabled == (running /\ curInst # 0) => (en[curInst] /\ q[curInst] = <<>>)
 ClearYieldsFresh == [][(IsFrame /\ ret' = "switched") => (cur' # "none" /\ inst'[cur'] = curInst')]_vars
+\* (the handle of the running world may be un-cached by the running code itself - "clrquit" - which is why a
+\* self-switch is recognised by the cached instance and not by the handle)
 =============================================================================
